@@ -140,6 +140,17 @@ CHECKS = {
         design_ref="6.7",
         note=LEVEL_NOTE_COMMON + " Float32 rounding of geometric/distribution kernels is not proved (tolerance comparison); spearmanr, circular_kantorovich, tsss, true_angular are checked for laws only; transport metrics are C10.",
     ),
+    "C10": dict(
+        technique="Coq proof of an LP-duality optimality certificate (weak duality with slack, all sizes) evaluated, extracted and in exact integer arithmetic, on the plan and potentials produced by the real network simplex for every instance; consequences of the property checked on the public entry points",
+        text=("Theorem C10_certificate_sound (coq/props/C10.v): if the checker accepts a plan F with potentials (u,v) - F >= 0, all reduced costs "
+              ">= -e, arcs carrying flow have reduced cost <= e - then F costs at most 2 e mass(F) more than any non-negative plan with the same "
+              "marginals (e = 0: F is an LP minimiser). On every run the steps of distances.kantorovich are executed with the compiled "
+              "functions, the flow and node potentials are read back, converted to exact integers and judged by the extracted checker; solver "
+              "status, marginals, the value returned by kantorovich / sparse_kantorovich, symmetry, zero on equal inputs, scale invariance and "
+              "the one-dimensional closed form are checked on the implementation."),
+        design_ref="6.10",
+        note=LEVEL_NOTE_COMMON + " The network simplex as an algorithm (pivoting, spanning-tree surgery, termination) is validated per output, not verified; continuity of the LP value in the marginals is not proved.",
+    ),
 }
 
 REASON_PENDING = "check not built yet in this round (design in DESIGN.md section 6; no claim is made until the check exists)"
